@@ -793,7 +793,7 @@ func (s *State) extendFunctionEnv(
 		// By definition function parameters are local copies, deref argument values:
 		pval := object.Value(args[paramIdx])
 		needVariable := true
-		if !s.NoReg && pval.Type() == object.INTEGER {
+		if !s.NoReg && pval.Type() == object.INTEGER && env.HasRegisters() {
 			// We will release all these registers just by returning/dropping the env.
 			_, nbody, ok := setupRegister(env, param.Value().Literal(), pval.(object.Integer).Value, newBody)
 			if ok {
@@ -925,7 +925,7 @@ func (s *State) evalForInteger(fe *ast.ForExpression, start *int64, end int64, n
 	var newBody ast.Node
 	var register object.Register
 	newBody = fe.Body
-	if name != "" && !s.NoReg {
+	if name != "" && !s.NoReg && s.env.HasRegisters() { // else fall back to a plain variable like with NoReg.
 		var ok bool
 		register, newBody, ok = setupRegister(s.env, name, int64(startValue), fe.Body)
 		if !ok {
@@ -937,7 +937,7 @@ func (s *State) evalForInteger(fe *ast.ForExpression, start *int64, end int64, n
 		defer s.env.ReleaseRegister(register)
 	}
 	for i := startValue; i < endValue; i++ {
-		if s.NoReg && name != "" {
+		if ptr == nil && name != "" {
 			s.env.Set(name, object.Integer{Value: int64(i)})
 		}
 		if ptr != nil {
